@@ -219,8 +219,10 @@ static void pair_close (void)
   script_clear ();
   dbus_connection_close (host);
   dbus_connection_close (caller);
-  while (dbus_connection_dispatch (host) == DBUS_DISPATCH_DATA_REMAINS) ;
-  while (dbus_connection_dispatch (caller) == DBUS_DISPATCH_DATA_REMAINS) ;
+  { int guard = 0;
+    while (dbus_connection_dispatch (host) == DBUS_DISPATCH_DATA_REMAINS && guard++ < 1000) ;
+    guard = 0;
+    while (dbus_connection_dispatch (caller) == DBUS_DISPATCH_DATA_REMAINS && guard++ < 1000) ; }
   dbus_connection_unref (host);      /* last reference: _dbus_object_tree_free_all_unlocked runs */
   dbus_connection_unref (caller);
   host = caller = NULL;
@@ -233,7 +235,7 @@ static DBusMessage *roundtrip (DBusMessage *m)
   DBusMessage *r;
   long guard = 0;
   if (!dbus_connection_send_with_reply (caller, m, &pc, 60000) || pc == NULL) abort ();
-  while (!dbus_pending_call_get_completed (pc) && guard++ < 10000000L)
+  while (!dbus_pending_call_get_completed (pc) && guard++ < 200000L)
     pump ();
   r = dbus_pending_call_steal_reply (pc);
   dbus_pending_call_unref (pc);
@@ -459,7 +461,7 @@ static void run_history (int conn_mode, char *rest)
             cur_accept = parse_mask (path);
             n_inv = 0;
             if (!dbus_connection_send_with_reply (host, m, &pc, 60000) || pc == NULL) abort ();
-            while (!dbus_pending_call_get_completed (pc) && guard++ < 10000000L) pump ();
+            while (!dbus_pending_call_get_completed (pc) && guard++ < 200000L) pump ();
             r = dbus_pending_call_steal_reply (pc);
             printf ("p="); print_ids (inv_log, n_inv);
             printf (":%d", r != NULL && dbus_message_get_type (r) == DBUS_MESSAGE_TYPE_METHOD_RETURN);
